@@ -135,6 +135,18 @@ CHECKS = {
              "and relate the two solutions as stated for budgets up to 100 (1000 thorough) and all presets.",
         note="impl-vs-impl comparisons use integer payoffs at 1e-12 where both sides perform the same operations and "
              "generic payoffs at 1e-9 otherwise; finite non-zero softmax weights excluded for payoff scaling"),
+    "C10": dict(
+        category="model_checking", design_ref="4 C10",
+        technique="Sampler.tla (inverse-CDF categorical sampler, once-per-pass draw cache) model-checked by TLC over all "
+                  "small weight vectors x all interval endpoints and midpoints and replayed into the production sampler; "
+                  "solves with live randomness recorded through observer hooks and validated against Trace_Sample.tla "
+                  "(draw sites, one draw per infoset and pass, nodes entered follow the draws, declared weights / current "
+                  "strategy, reset counters, chi-square frequency test evaluated by TLC on its own tallies)",
+        text="the sampler table is exhaustive over vectors of length <=4 with weights <=3 (4 thorough); every recorded pass "
+             "of real solves must be a behaviour of the trace specification; the distribution actually sampled from is "
+             "observable only statistically (1000 draws per distribution, threshold at the 1-1e-9 quantile).",
+        note="the frequency part is a statistical test (false-alarm probability < 1e-9 per distribution); the alias-table "
+             "sampler of rand_distr is trusted beyond that"),
 }
 
 NOT_YET = "check not built yet (construction in progress, see DESIGN.md section 9)"
